@@ -10,6 +10,68 @@ from . import spec as speclib
 Z3_TIMEOUT_MS = int(os.environ.get('PYVC_Z3_TIMEOUT_MS', '30000'))
 CVC5_TIMEOUT_MS = int(os.environ.get('PYVC_CVC5_TIMEOUT_MS', '30000'))
 
+
+# ---------------------------------------------------------------------------------------------------------------------
+# nth on sequences of sequences (lists of str).  z3 4.8.12 and 5.1.0 answer `unsat` on satisfiable inputs in which `seq.nth` is applied
+# to a Seq(String) that can be empty (pyvc/selftest/solver/: the sequence theory uses the in-bounds variant seq.nth_i of an *empty* sequence
+# of strings as if it denoted something, mixing the two levels of sequences).  Every query therefore goes to the solvers with nth on
+# nested sequences replaced by an uninterpreted function tied to the theory only where the index is in bounds:
+#     0 <= i < len(s)  ->  seq.at-style extract(s, i, 1) == unit(nth_of(s, i))
+# (what Python's xs[i] means for an index in bounds; out of bounds the executor has an IndexError exit and nothing is assumed).
+# GUARD_NESTED_NTH=0 switches the replacement off (used by the self-test that shows the wrong answer).
+_nth_fns = {}
+def _nth_fn(seq_sort):
+    k = str(seq_sort)
+    if k not in _nth_fns:
+        _nth_fns[k] = z3.Function('nth_of_' + k.replace(' ', '_').replace('(', '_').replace(')', ''), seq_sort, z3.IntSort(), seq_sort.basis())
+    return _nth_fns[k]
+def _is_nested(seq_sort):
+    return seq_sort.kind() == z3.Z3_SEQ_SORT and seq_sort.basis().kind() == z3.Z3_SEQ_SORT
+def guard_nested_nth(fs):
+    """(fs', axioms): every nth on a sequence of sequences replaced by an uninterpreted function, tied to the theory through seq.at"""
+    cache = {}; used = {}
+    def go(e):
+        i = e.get_id()
+        if i in cache: return cache[i]
+        if z3.is_quantifier(e):
+            body = go(e.body())
+            if body.get_id() == e.body().get_id(): r = e
+            else:
+                vs = [z3.Const(e.var_name(k), e.var_sort(k)) for k in range(e.num_vars())]
+                inst = z3.substitute_vars(body, *reversed(vs))
+                pats = []
+                for pi in range(e.num_patterns()):
+                    p = e.pattern(pi)
+                    pats.append(z3.MultiPattern(*[z3.substitute_vars(go(p.arg(k)), *reversed(vs)) for k in range(p.num_args())]) if p.num_args() > 1
+                                else z3.substitute_vars(go(p.arg(0)), *reversed(vs)))
+                try: r = z3.ForAll(vs, inst, patterns=pats) if e.is_forall() else z3.Exists(vs, inst)
+                except z3.Z3Exception: r = z3.ForAll(vs, inst) if e.is_forall() else z3.Exists(vs, inst)
+            cache[i] = r; return r
+        if not z3.is_app(e) or e.num_args() == 0:
+            cache[i] = e; return e
+        args = [go(c) for c in e.children()]
+        d = e.decl()
+        if d.name() in ('seq.nth', 'seq.nth_i', 'seq.nth_u') and _is_nested(args[0].sort()):
+            f = _nth_fn(args[0].sort()); used[str(args[0].sort())] = (f, args[0].sort())
+            r = f(args[0], args[1])
+        elif all(a.get_id() == c.get_id() for a, c in zip(args, e.children())): r = e
+        else: r = d(*args)
+        cache[i] = r; return r
+    out = [go(f) for f in fs]
+    ax = []
+    for f, srt in used.values():
+        s = z3.Const('s!nn', srt); i = z3.Int('i!nn')
+        ax.append(z3.ForAll([s, i], z3.Implies(z3.And(0 <= i, i < z3.Length(s)), z3.SubSeq(s, i, 1) == z3.Unit(f(s, i))), patterns=[f(s, i)]))
+        # (the same fact in the shape loop invariants over prefixes use: the prefix of length i+1 is the prefix of length i and the i-th item)
+        ax.append(z3.ForAll([s, i], z3.Implies(z3.And(0 <= i, i < z3.Length(s)), z3.SubSeq(s, 0, i + 1) == z3.Concat(z3.SubSeq(s, 0, i), z3.Unit(f(s, i)))), patterns=[f(s, i)]))
+    return out, ax
+
+GUARD = os.environ.get('PYVC_GUARD_NESTED_NTH', '1') != '0'
+def guarded(fs):
+    if not GUARD: return list(fs)
+    out, ax = guard_nested_nth(list(fs))
+    return out + ax
+
 class Obligation(object):
     def __init__(self, name, hyps, goal, kind='post', function=None, where=None, carries_property=False,
                  expect_fail=False, meta=None, unfold_depth=1):
@@ -29,7 +91,7 @@ class Obligation(object):
         if self.abstract_nonlinear:
             cache = {}
             fs = [abstract_nl(f, cache) for f in fs]
-        return fs
+        return guarded(fs)
 
     def _formulas(self):
         fs = list(self.hyps) + [z3.Not(self.goal)]
@@ -64,7 +126,7 @@ def _int_candidates(fs, limit=14):
         if z3.is_const(e) and e.sort() == z3.IntSort() and e.decl().kind() == z3.Z3_OP_UNINTERPRETED:
             out[e.get_id()] = e
         stack.extend(e.children())
-    cands = sorted(out.values(), key=lambda c: 0 if str(c).startswith('w_') else 1)[:limit]      # (witnesses of existential hypotheses first)
+    cands = sorted(out.values(), key=lambda c: 0 if str(c).startswith(('w_', 'sk_')) else 1)[:limit]      # (witnesses of existential hypotheses and the goal's own constants first)
     res = [z3.IntVal(0)] + cands + [c - 1 for c in cands] + [c + 1 for c in cands]
     return res
 
@@ -185,15 +247,48 @@ def _model_dict(m):
 
 def _is_countermodel(m, ob):
     try:
-        g = m.eval(ob.goal, model_completion=True)
+        gh = guard_nested_nth([ob.goal] + list(ob.hyps))[0] if GUARD else [ob.goal] + list(ob.hyps)      # the model speaks about the guarded formulas
+        g = m.eval(gh[0], model_completion=True)
         if z3.is_true(g): return False
-        for h in ob.hyps:
+        for h in gh[1:]:
             if z3.is_quantifier(h): continue
             v = m.eval(h, model_completion=True)
             if z3.is_false(v): return False
         return True
     except z3.Z3Exception:
         return True
+
+def _consts(e, acc=None, seen=None):
+    acc = set() if acc is None else acc; seen = set() if seen is None else seen
+    stack = [e]
+    while stack:
+        t = stack.pop()
+        if t.get_id() in seen: continue
+        seen.add(t.get_id())
+        if z3.is_quantifier(t): stack.append(t.body()); continue
+        if z3.is_app(t):
+            if t.num_args() == 0 and t.decl().kind() == z3.Z3_OP_UNINTERPRETED: acc.add(t.decl().name())
+            stack.extend(t.children())
+    return acc
+
+def focused(ob):
+    """a subset of the query: every ground formula, and of the quantified ones those that speak about a constant of the goal (or about no
+    constant at all: definitions).  Proving from fewer hypotheses is sound; loop bodies late in a function otherwise drag along the
+    invariants of every earlier loop, which cost the matcher its budget."""
+    gc = _consts(ob.goal)
+    hyps = []
+    for f in ob.hyps:
+        if not z3.is_quantifier(f): hyps.append(f); continue
+        fc = _consts(f)
+        if not fc or (fc & gc): hyps.append(f)
+    o2 = Obligation(ob.name, hyps, ob.goal, kind=ob.kind, function=ob.function, where=ob.where, unfold_depth=ob.unfold_depth)
+    o2.abstract_nonlinear, o2.instantiate_int_foralls, o2.frame_heuristic = ob.abstract_nonlinear, ob.instantiate_int_foralls, ob.frame_heuristic
+    return o2.formulas()
+
+def run_z3_focused(ob, timeout_ms=10000):
+    s = z3.Solver(); s.set('timeout', timeout_ms); s.add(*focused(ob))
+    t = time.time(); r = s.check()
+    return ('proved' if r == z3.unsat else 'unknown'), time.time() - t
 
 def run_z3(ob, timeout_ms=None):
     s = z3.Solver()
@@ -290,6 +385,9 @@ def discharge(ob, both=False):
         for k, v in results.items(): ob.backends_tried.append((k + '-cli', v[0], round(v[1], 3)))
         ob.backend = who or 'z3+cvc5'
         why = '; '.join('%s: %s' % (k, v[2][:120]) for k, v in results.items()) if r == 'unknown' else None
+        if r == 'unknown':
+            r4, dt4 = run_z3_focused(ob); ob.solver_s += dt4; ob.backends_tried.append(('z3-focused', r4, round(dt4, 3)))
+            if r4 == 'proved': r, why, ob.backend = 'proved', None, 'z3 (focused hypotheses)'
         if r == 'failed':
             r3, dt3, m, _ = run_z3(ob, Z3_TIMEOUT_MS)      # for the model
             ob.solver_s += dt3
@@ -328,6 +426,10 @@ def discharge_all(obls, both=False, jobs=None):
                 ob.backend = who or 'z3+cvc5'
                 ob.result = r
                 ob.reason = '; '.join('%s: %s' % (k, v[2][:120]) for k, v in results.items()) if r == 'unknown' else None
+        for ob in hard:
+            if ob.result == 'unknown':
+                r4, dt4 = run_z3_focused(ob); ob.solver_s += dt4; ob.backends_tried.append(('z3-focused', r4, round(dt4, 3)))
+                if r4 == 'proved': ob.result, ob.backend, ob.reason = 'proved', 'z3 (focused hypotheses)', None
         for ob in hard:
             if ob.result == 'failed':
                 r3, dt3, m, _ = run_z3(ob, Z3_TIMEOUT_MS); ob.model = m; ob.solver_s += dt3
